@@ -229,6 +229,8 @@ def run(ctx):
                                   replay={"names": ["alpha.txt", "beta.txt", "secret.txt", "zeta.txt", "page.html", ".Links", ".cap/beta.txt"], "handler": "umn"})
         finally:
             tw.close()
+        from props import c08
+        c08.big_link_file(res, "C07")        # entries hidden by blocks late in a large link file stay hidden
         outs = ctx.driver.run(model_lines + regex_lines)
         for (inp, impl), o in zip(checks, outs[:len(model_lines)]):
             res.evaluations += 1
